@@ -45,6 +45,7 @@ func allChecks() []*Check {
 				{Pkg: "client", Func: "VerifSession", Sched: true, Quick: map[string]int{"N": 2, "SW": 1, "KINDS": 1, "TRACK": 0}, Thorough: map[string]int{"N": 3, "SW": 1, "KINDS": 1, "TRACK": 1}, Asserts: []string{"DISCONNECTED-exactly-once", "REGISTER-exactly-once", "REGISTER-once-before-Connect-returns", "Connected-false-in-DISCONNECTED-handler", "Connected-true-in-REGISTER-handler"}},
 				{Pkg: "client", Func: "VerifSession", Sched: true, Quick: map[string]int{"N": 2, "SW": 1, "KINDS": 1, "TRACK": 0, "EARLY": 1}, Thorough: map[string]int{"N": 3, "SW": 1, "KINDS": 1, "TRACK": 0, "EARLY": 1}, Asserts: []string{"DISCONNECTED-exactly-once", "REGISTER-exactly-once"}, Note: "ends while lines are in flight"},
 				{Pkg: "client", Func: "VerifSession", Sched: true, Quick: map[string]int{"N": 2, "SW": 1, "KINDS": 0, "TRACK": 0, "EARLY": 1, "FLOODHOLD": 1, "SLIM": 1}, Thorough: map[string]int{"N": 3, "SW": 1, "KINDS": 1, "TRACK": 0, "EARLY": 1, "FLOODHOLD": 1, "SLIM": 1}, Asserts: []string{"DISCONNECTED-exactly-once", "REGISTER-exactly-once"}, Note: "flood control engaged: the connection ends while the sender is holding a line back"},
+				{Pkg: "client", Func: "VerifC07Teardown", Sched: true, Quick: map[string]int{"INB": 70, "OUTB": 0, "SW": 0, "NOGATE": 1}, Thorough: map[string]int{"INB": 100, "OUTB": 0, "SW": 1, "NOGATE": 1}, Asserts: []string{"DISCONNECTED-delivered-once"}, Note: "the connection ends after the event loop has worked through 70 lines (14 PINGs answered, JOINs followed up) towards a stalled peer"},
 				{Pkg: "client", Func: "VerifC06CancelDuringConnect", Sched: true, Quick: map[string]int{"SW": 1}, Thorough: map[string]int{"SW": 2}, Asserts: []string{"REGISTER-exactly-once", "DISCONNECTED-exactly-once"}},
 				{Pkg: "client", Func: "VerifC06WriteError", Sched: true, Quick: map[string]int{"SW": 1}, Thorough: map[string]int{"SW": 2}, Asserts: []string{"DISCONNECTED-exactly-once"}},
 			},
@@ -73,6 +74,7 @@ func allChecks() []*Check {
 				{Pkg: "client", Func: "VerifC07Teardown", Sched: true, Quick: map[string]int{"INB": 70, "OUTB": 0, "SW": 1}, Thorough: map[string]int{"INB": 100, "OUTB": 0, "SW": 1}, Asserts: []string{"DISCONNECTED-delivered-once"}, Note: "inbound backlog beyond twice the queue capacity"},
 				{Pkg: "client", Func: "VerifC07Teardown", Sched: true, Quick: map[string]int{"INB": 0, "OUTB": 70, "SW": 0}, Thorough: map[string]int{"INB": 10, "OUTB": 100, "SW": 0}, Asserts: []string{"DISCONNECTED-delivered-once"}, Note: "a handler emitting more lines than twice the queue capacity to a stalled peer"},
 				{Pkg: "client", Func: "VerifC07Teardown", Sched: true, Quick: map[string]int{"INB": 0, "OUTB": 40, "PRODUCER": 1, "SW": 0}, Thorough: map[string]int{"INB": 4, "OUTB": 60, "PRODUCER": 1, "SW": 1}, Asserts: []string{"DISCONNECTED-delivered-once"}, Note: "a user goroutine flooding a stalled peer"},
+				{Pkg: "client", Func: "VerifC07Teardown", Sched: true, Quick: map[string]int{"INB": 70, "OUTB": 0, "SW": 0, "NOGATE": 1}, Thorough: map[string]int{"INB": 100, "OUTB": 0, "SW": 1, "NOGATE": 1}, Asserts: []string{"DISCONNECTED-delivered-once"}, Note: "the event loop has worked through the backlog (PINGs answered, JOINs followed up) towards a stalled peer"},
 				{Pkg: "client", Func: "VerifC07Reconnect", Sched: true, Quick: map[string]int{"CYCLES": 2, "SW": 1, "KINDS": 1}, Thorough: map[string]int{"CYCLES": 2, "SW": 2, "KINDS": 1}, Asserts: []string{"old-teardown-disconnects-new-connection", "new-connection-stays-up", "new-socket-not-closed-by-old-teardown", "registration-reaches-the-new-socket", "REGISTER-once-per-connection", "DISCONNECTED-once-per-ended-connection"}},
 				{Pkg: "client", Func: "VerifC07Wipe", Asserts: []string{"tracker-reset-on-connect", "tracker-is-just-the-client"}},
 			},
